@@ -45,7 +45,7 @@ PROPS = {
         "design_ref": "DESIGN.md section 4 C03, section 9",
     },
     "C04": {
-        "claim": "proof: the code-shaped odometer model (`Odo.generate`, the loop of generateStatementMatrix) is proved, for all lists of alternatives of any size, to emit exactly the Cartesian product in lexicographic order - no row twice, none missing, count = product of sizes, single-valued components constant in every row, loop terminates within `count` steps; the leaf-array order is proved a permutation of the 27 fields from regenerated facts. The odometer model and the row/cell layout are tied to the code by differential execution (odometer op on random dimension vectors; full tables byte for byte)",
+        "claim": "proof: the code-shaped odometer model is proved, for all lists of alternatives of any size, to emit exactly the Cartesian product in lexicographic order (no row twice, none missing, count = product, singletons constant, termination within `count`), and the table model is proved to produce one own row per permutation, i.e. as many atomic statements as there are ways of choosing one alternative per component column, in every mode (`table_rows_card`); leaf-array order proved a permutation of the 27 fields from regenerated facts. Tied by the odometer op on random dimension vectors and byte-exact tables; two spec-level oracles on the implementation's table (row count = product of choices; every row shows one complete alternative of components with several combinations); one open known finding",
         "note": T_TABULAR + "; the odometer itself is exercised in isolation through a build-tag hook",
         "rule": TAB_RULE + "; plus `odo` cases: random dimension vectors (0-5 components, 1-4 alternatives) run through the real loop via the verif hook and compared with `Odo.generate`",
         "assumptions": ["row blow-up bounded by generator (at most 256 rows per statement)"],
@@ -53,7 +53,7 @@ PROPS = {
         "design_ref": "DESIGN.md section 4 C04, section 9",
     },
     "C05": {
-        "claim": "partial proof: operator collapsing is proved to return a sublist of the path operators that keeps the first operator and every non-conjunction operator (adjacent conjunction-type operators merge, nothing else is dropped or reordered); the linkage search (`Link.find`, searchUp/searchDown with the code's probes) and the cell layout are code-shaped models tied byte for byte; an independent oracle recomputes, from the parsed tree, for every row and every other alternative the rows carrying it and the tree-path operators, checks mutuality, and judges the implementation's table directly",
+        "claim": "proof: the linkage search (searchDownward/searchUpward with all their redundant probes, modelled code-shaped) is proved for every tree, every depth and every pair of nodes to succeed and to return exactly the operators on the tree path - bottom-up from the source to below the lowest common ancestor, the ancestor's operator, top-down to the target - and hence to be mutual with the operator list reversed (`find_spec`, `find_mutual`); operator collapsing is proved to return a sublist that keeps the first and every non-conjunction operator; range compression of the row references is proved lossless. The model (`Link.find`, cell layout) is tied byte for byte; an independent oracle checks mutuality, mirrored operators and that every named row exists on the implementation's table",
         "note": T_TABULAR,
         "rule": TAB_RULE,
         "assumptions": [],
@@ -136,7 +136,7 @@ PROPS = {
         "design_ref": "DESIGN.md section 4 C15, section 9",
     },
     "C16": {
-        "claim": "partial proof: the pairing of components with their property fields is regenerated from source and proved equal to the specification's; theorems: without a matching suffix the statement is unchanged (properties stay shared), the attached private value keeps its component type, removal/attachment with nothing to do are identities; the full attachment statement (only matching values, withdrawn from shared, both exports) is decided by correspondence of the parser with `denoteLinked` and of both exports with their models. One open known finding (removal after root collapse)",
+        "claim": "partial proof: the pairing of components with their property fields is regenerated from source and proved equal to the specification's; withdrawal is proved exact for every tree and every set of paths - the remaining shared tree holds exactly the leaves at the paths that were not matched, in order (`shared_tree_keeps_exactly_the_unmatched`); attaching changes nothing but the private lists, a value receives exactly the nodes listed for its own path, no matching suffix leaves the statement unchanged, the private value keeps its component type; agreement of the parser with `denoteLinked` and of both exports with their models is decided by correspondence; one open known finding (delimited: only retained shared copies are accepted)",
         "note": T_PARSER,
         "rule": PARSE_RULE + "; statements carry suffixed and unsuffixed properties and annotations on combined components",
         "assumptions": [],
@@ -151,14 +151,14 @@ PROPS = {
         "design_ref": "DESIGN.md section 4 C17, section 9",
     },
     "C18": {
-        "claim": "partial proof: inserting, changing or removing unannotated text anywhere between annotations is proved, for every statement and every position, not to change the specification's meaning (provided the text spells no bracketed operator between nested statements); reordering annotations of different types and the agreement of the parser and both exports are decided by correspondence on generated variants (permutations that keep same-symbol order; filler insertion/removal)",
+        "claim": "proof: for every statement and every position, (1) inserting, changing or removing unannotated text does not change the specification's meaning (unless it spells a bracketed operator between nested statements), and (2) swapping two adjacent parts that do not fill the same statement field does not change it either - every reordering that keeps the relative order of annotations of one component type is a sequence of such swaps (`denote_insert_filler`, `reorder_adjacent`); that the parser and both exports behave like the specification is decided by correspondence on generated variants (permutations, refilling inside and outside braces, whitespace around operators); two open known findings",
         "note": T_PARSER,
         "rule": "for each generated statement: variants by permuting parts of different symbols and by inserting/changing/removing filler words and punctuation; parse tree and both exports must be identical to the original's",
         "assumptions": [],
         "design_ref": "DESIGN.md section 4 C18, section 9",
     },
     "C19": {
-        "claim": "partial proof: the sites where the export reads the IG Extended switch are regenerated from source and proved to be the model's `o.ext` branches only; that top-level rows and non-reference cells coincide, Extended adds one row group per nested statement with its id in the reference cell and Core adds no rows and prints the nested text is decided by an oracle comparing both tables of each generated statement, and by byte-exact agreement with the model in both modes",
+        "claim": "proof: in the table model IG Core never registers a nested statement and `stmtRows` returns exactly the statement's own atomic statements (`core_adds_no_rows`, for every statement, nesting depth and option), both modes begin with the same number of own rows and IG Extended appends the nested row groups after them; the sites reading the switch are regenerated from source; that non-reference cells coincide, every id has its row group and IG Core's text contains every value is decided by an oracle comparing both tables of each generated statement, and by byte-exact agreement with the model in both modes; one open known finding",
         "note": T_TABULAR,
         "rule": TAB_RULE + "; each statement is exported in both modes and the pair is judged",
         "assumptions": [],
